@@ -747,32 +747,107 @@ shading("aquarium", _aq_gen, _aq_valid, _aq_solve, readings=("level-local", "lev
 
 
 # ======================================================================================= star battle
+def balanced_ids(rng, n, nblocks, reserved=()):
+    """Partition of the n x n board minus `reserved` into nblocks connected blocks of nearly equal size (always grow the
+    smallest block that can still grow), as in published star-battle layouts.  -> dict cell -> block id, or None."""
+    free = [c for c in allc(n, n) if c not in reserved]
+    seeds = rng.sample(free, nblocks)
+    owner = {c: k for k, c in enumerate(seeds)}
+    size = [1] * nblocks
+    while len(owner) < len(free):
+        order = sorted(range(nblocks), key=lambda k: (size[k], rng.random()))
+        grown = False
+        for k in order:
+            cand = [(y + dy, x + dx) for (y, x), o in owner.items() if o == k for dy, dx in N4
+                    if 0 <= y + dy < n and 0 <= x + dx < n and (y + dy, x + dx) not in owner and (y + dy, x + dx) not in reserved]
+            if cand:
+                owner[rng.choice(cand)] = k
+                size[k] += 1
+                grown = True
+                break
+        if not grown:
+            return None
+    return owner
+
+
 def _sb_gen(rng, big):
-    n = rng.choice([1, 2, 3, 4] + ([5] if big else []))
+    r = rng.random()
+    if r < 0.14:
+        n = rng.choice([8, 9, 9, 10] if big else [9])  # k = 2 has solutions only from n = 8/9 on
+        k = 2
+        for _ in range(20):
+            if rng.random() < 0.5:
+                # a two-cell block in some row (its two stars would have to sit side by side: unsolvable by the rules)
+                y0 = rng.choice([0, n - 1, n - 1, rng.randrange(n)])
+                x0 = rng.randrange(n - 1)
+                dom = ((y0, x0), (y0, x0 + 1))
+                owner = balanced_ids(rng, n, n - 1, reserved=dom)
+                if owner is None:
+                    continue
+                for c in dom:
+                    owner[c] = n - 1
+            else:
+                owner = balanced_ids(rng, n, n)
+                if owner is None:
+                    continue
+            return {"n": n, "g": [[owner[(y, x)] for x in range(n)] for y in range(n)], "k": k}
+    n = rng.choice([1, 2, 3, 4, 5, 6])
+    k = 1 if n < 5 or rng.random() < 0.7 else 2
     rooms = None
     while rooms is None or len(rooms) != n:
         rooms = randrooms(rng, n, n, n)
     g = [[0] * n for _ in range(n)]
-    for k, rm in enumerate(rooms):
+    for kk, rm in enumerate(rooms):
         for y, x in rm:
-            g[y][x] = k
-    return {"n": n, "g": g, "k": 1 if n < 5 or rng.random() < 0.7 else 2}
+            g[y][x] = kk
+    return {"n": n, "g": g, "k": k}
 
 
 def _sb_truth(i):
     n, g, k = i["n"], i["g"], i["k"]
+    nblocks = max(v for row in g for v in row) + 1
     sols = []
-    for S in cellsets(n, n):
-        ok = True
-        for t in range(n):
-            if sum(1 for x in range(n) if (t, x) in S) != k or sum(1 for y in range(n) if (y, t) in S) != k:
-                ok = False
-                break
-            if sum(1 for (y, x) in S if g[y][x] == t) != k:
-                ok = False
-                break
-        if ok and not any((y + dy, x + dx) in S for y, x in S for dy in (-1, 0, 1) for dx in (-1, 0, 1) if (dy, dx) != (0, 0)):
-            sols.append(set_sol(n, n, S))
+    col = [0] * n
+    blk = [0] * nblocks
+    rows = []
+    import itertools as _it
+
+    options = [c for c in _it.combinations(range(n), k) if all(b - a > 1 for a, b in zip(c, c[1:]))]
+
+    def rec(y):
+        if len(sols) > 3000:
+            return
+        if y == n:
+            if all(c == k for c in col) and all(b == k for b in blk):
+                S = {(yy, x) for yy, cs in enumerate(rows) for x in cs}
+                sols.append(set_sol(n, n, S))
+            return
+        prev = rows[-1] if rows else ()
+        for cs in options:
+            if any(abs(x - px) <= 1 for x in cs for px in prev):
+                continue
+            if any(col[x] >= k for x in cs):
+                continue
+            cnt = {}
+            for x in cs:
+                cnt[g[y][x]] = cnt.get(g[y][x], 0) + 1
+            if any(blk[b] + c > k for b, c in cnt.items()):
+                continue
+            # remaining rows must be able to fill every column
+            for x in cs:
+                col[x] += 1
+                blk[g[y][x]] += 1
+            if all(col[x] + (n - 1 - y) >= k for x in range(n)):
+                rows.append(cs)
+                rec(y + 1)
+                rows.pop()
+            for x in cs:
+                col[x] -= 1
+                blk[g[y][x]] -= 1
+
+    rec(0)
+    if len(sols) > 3000:
+        return None
     return {"std": sols}
 
 
